@@ -123,6 +123,7 @@ let process tag aliases classes methods =
          end;
          List.iteri (fun i _ -> pr "specnext %d %d = %s\n" mi i (outcome_name (spec_next r defs (nat_of_int i)))) defs)
        c.o_meths;
+     List.iter (fun t -> pr "vptr %d = ok\n" t) tids;
      List.iter (fun t -> pr "lookup %d = ok\n" t) tids;
      let b x = if x then 1 else 0 in
      pr "specreport ni %d amb %d cni %d camb %d\n" (b (spec_flag r is_nodef false)) (b (spec_flag r is_ambig false))
